@@ -32,7 +32,8 @@ CONSTANTS NF,        \* user fds are 1..NF; fd 0 is the waker's read end
           MaxW,      \* capacity of the waker socket buffer (send raises BlockingIOError when full)
           WFull,     \* smallest buffer level at which a send may be refused (= MaxW when exact)
           RecvMax,   \* bytes one _consume_waker recv can take (1024 in the code)
-          Hows,      \* shutdown paths explored: subset of {"close", "atexit"}
+          HowSets,   \* set of sets of shutdown paths; a behaviour fixes one of them (hows) initially:
+                     \* {{"close", "atexit"}} explores both paths, {} \in HowSets adds behaviours without shutdown
           MaxClose   \* bound on fds the application closes (after unregistering them)
 
 FDs   == 1..NF
@@ -60,7 +61,7 @@ variables
     ready = [k \in Kinds |-> IF k = "w" THEN FDs ELSE {}],
     queue = <<>>,                                  \* call_soon_threadsafe(_handle_select, rs, ws)
     started = FALSE, sdone = FALSE,                \* selector thread started / returned
-    closeCalled = FALSE, closed = FALSE, how = "none",
+    closeCalled = FALSE, closed = FALSE, how = "none", hows \in HowSets,
     chg = 0, envn = 0, ncl = 0,
     closedfds = {},                                \* user fds closed by the application
     gone = [k \in Kinds |-> {}],                   \* ready during the current select, closed since
@@ -137,7 +138,7 @@ m_top:      \* the event loop picks its next callback
         goto m_top
     } or {      \* close() / _atexit_callback(): with cond
         await mutex = 0;
-        with (h \in {x \in Hows : ~closeCalled \/ (how = "atexit" /\ x = "close")}) { how := h };
+        with (h \in {x \in hows : ~closeCalled \/ (how = "atexit" /\ x = "close")}) { how := h };
         closeCalled := TRUE;
         mutex := 1;
         goto m_cl_body
@@ -155,7 +156,7 @@ m_run:      \* inside _handle_select: dispatch, or the body of the current callb
         with (f \in FDs \ (closedfds \cup reg["r"] \cup reg["w"])) { CloseFd(f) };
         goto m_run
     } or {      \* callback body: the application closes the selector from inside a callback
-        await cur # NoCb /\ mutex = 0 /\ "close" \in Hows /\ (~closeCalled \/ how = "atexit");
+        await cur # NoCb /\ mutex = 0 /\ "close" \in hows /\ (~closeCalled \/ how = "atexit");
         how := "close";
         closeCalled := TRUE;
         mutex := 1;
@@ -285,8 +286,9 @@ e_loop:
 } *)
 \* BEGIN TRANSLATION
 VARIABLES pc, mutex, waitset, selArgs, closing, waker, reg, ready, queue, 
-          started, sdone, closeCalled, closed, how, chg, envn, ncl, closedfds, 
-          gone, crashed, myargs, must, res, todoR, todoW, cur, ret, cret
+          started, sdone, closeCalled, closed, how, hows, chg, envn, ncl, 
+          closedfds, gone, crashed, myargs, must, res, todoR, todoW, cur, ret, 
+          cret
 
 (* define statement *)
 ReadyNow(k) == IF k = "r" THEN ready["r"] \cup (IF waker > 0 THEN {0} ELSE {}) ELSE ready["w"]
@@ -296,7 +298,7 @@ NextW == FirstReg(todoW, reg["w"])
 
 
 vars == << pc, mutex, waitset, selArgs, closing, waker, reg, ready, queue, 
-           started, sdone, closeCalled, closed, how, chg, envn, ncl, 
+           started, sdone, closeCalled, closed, how, hows, chg, envn, ncl, 
            closedfds, gone, crashed, myargs, must, res, todoR, todoW, cur, 
            ret, cret >>
 
@@ -316,6 +318,7 @@ Init == (* Global variables *)
         /\ closeCalled = FALSE
         /\ closed = FALSE
         /\ how = "none"
+        /\ hows \in HowSets
         /\ chg = 0
         /\ envn = 0
         /\ ncl = 0
@@ -343,9 +346,9 @@ m_init == /\ pc[1] = "m_init"
                 /\ waker' = waker
           /\ pc' = [pc EXCEPT ![1] = "m_top"]
           /\ UNCHANGED << mutex, waitset, selArgs, closing, ready, queue, 
-                          started, sdone, closeCalled, closed, how, chg, envn, 
-                          ncl, closedfds, gone, crashed, myargs, must, res, 
-                          todoR, todoW, cur, ret, cret >>
+                          started, sdone, closeCalled, closed, how, hows, chg, 
+                          envn, ncl, closedfds, gone, crashed, myargs, must, 
+                          res, todoR, todoW, cur, ret, cret >>
 
 m_top == /\ pc[1] = "m_top"
          /\ \/ /\ ~started
@@ -387,14 +390,14 @@ m_top == /\ pc[1] = "m_top"
                /\ pc' = [pc EXCEPT ![1] = "m_top"]
                /\ UNCHANGED <<mutex, reg, queue, started, closeCalled, how, chg, todoR, todoW, ret>>
             \/ /\ mutex = 0
-               /\ \E h \in {x \in Hows : ~closeCalled \/ (how = "atexit" /\ x = "close")}:
+               /\ \E h \in {x \in hows : ~closeCalled \/ (how = "atexit" /\ x = "close")}:
                     how' = h
                /\ closeCalled' = TRUE
                /\ mutex' = 1
                /\ pc' = [pc EXCEPT ![1] = "m_cl_body"]
                /\ UNCHANGED <<reg, ready, queue, started, chg, ncl, closedfds, gone, must, todoR, todoW, ret>>
-         /\ UNCHANGED << waitset, selArgs, closing, waker, sdone, closed, envn, 
-                         crashed, myargs, res, cur, cret >>
+         /\ UNCHANGED << waitset, selArgs, closing, waker, sdone, closed, hows, 
+                         envn, crashed, myargs, res, cur, cret >>
 
 m_run == /\ pc[1] = "m_run"
          /\ \/ /\ cur # NoCb /\ cur.f \in ready[cur.k]
@@ -429,7 +432,7 @@ m_run == /\ pc[1] = "m_run"
                     /\ ready' = [k \in Kinds |-> ready[k] \ {f}]
                /\ pc' = [pc EXCEPT ![1] = "m_run"]
                /\ UNCHANGED <<mutex, waker, reg, closeCalled, how, chg, todoR, todoW, cur, ret, cret>>
-            \/ /\ cur # NoCb /\ mutex = 0 /\ "close" \in Hows /\ (~closeCalled \/ how = "atexit")
+            \/ /\ cur # NoCb /\ mutex = 0 /\ "close" \in hows /\ (~closeCalled \/ how = "atexit")
                /\ how' = "close"
                /\ closeCalled' = TRUE
                /\ mutex' = 1
@@ -459,7 +462,7 @@ m_run == /\ pc[1] = "m_run"
                /\ pc' = [pc EXCEPT ![1] = "m_ss_body"]
                /\ UNCHANGED <<waker, reg, ready, closeCalled, how, chg, ncl, closedfds, gone, must, ret, cret>>
          /\ UNCHANGED << waitset, selArgs, closing, queue, started, sdone, 
-                         closed, envn, crashed, myargs, res >>
+                         closed, hows, envn, crashed, myargs, res >>
 
 m_wk == /\ pc[1] = "m_wk"
         /\ \/ /\ waker < MaxW
@@ -473,8 +476,8 @@ m_wk == /\ pc[1] = "m_wk"
               ELSE /\ ret' = "m_top"
                    /\ pc' = [pc EXCEPT ![1] = "m_run"]
         /\ UNCHANGED << mutex, waitset, selArgs, closing, reg, ready, queue, 
-                        started, sdone, closeCalled, closed, how, chg, envn, 
-                        ncl, closedfds, gone, crashed, myargs, must, res, 
+                        started, sdone, closeCalled, closed, how, hows, chg, 
+                        envn, ncl, closedfds, gone, crashed, myargs, must, res, 
                         todoR, todoW, cur, cret >>
 
 m_ss_acq == /\ pc[1] = "m_ss_acq"
@@ -483,16 +486,16 @@ m_ss_acq == /\ pc[1] = "m_ss_acq"
             /\ pc' = [pc EXCEPT ![1] = "m_ss_body"]
             /\ UNCHANGED << waitset, selArgs, closing, waker, reg, ready, 
                             queue, started, sdone, closeCalled, closed, how, 
-                            chg, envn, ncl, closedfds, gone, crashed, myargs, 
-                            must, res, todoR, todoW, cur, ret, cret >>
+                            hows, chg, envn, ncl, closedfds, gone, crashed, 
+                            myargs, must, res, todoR, todoW, cur, ret, cret >>
 
 m_ss_body == /\ pc[1] = "m_ss_body"
              /\ selArgs' = [some |-> TRUE, r |-> reg["r"], w |-> reg["w"]]
              /\ waitset' = {}
              /\ pc' = [pc EXCEPT ![1] = "m_ss_rel"]
              /\ UNCHANGED << mutex, closing, waker, reg, ready, queue, started, 
-                             sdone, closeCalled, closed, how, chg, envn, ncl, 
-                             closedfds, gone, crashed, myargs, must, res, 
+                             sdone, closeCalled, closed, how, hows, chg, envn, 
+                             ncl, closedfds, gone, crashed, myargs, must, res, 
                              todoR, todoW, cur, ret, cret >>
 
 m_ss_rel == /\ pc[1] = "m_ss_rel"
@@ -500,16 +503,16 @@ m_ss_rel == /\ pc[1] = "m_ss_rel"
             /\ pc' = [pc EXCEPT ![1] = "m_top"]
             /\ UNCHANGED << waitset, selArgs, closing, waker, reg, ready, 
                             queue, started, sdone, closeCalled, closed, how, 
-                            chg, envn, ncl, closedfds, gone, crashed, myargs, 
-                            must, res, todoR, todoW, cur, ret, cret >>
+                            hows, chg, envn, ncl, closedfds, gone, crashed, 
+                            myargs, must, res, todoR, todoW, cur, ret, cret >>
 
 m_cl_body == /\ pc[1] = "m_cl_body"
              /\ closing' = TRUE
              /\ waitset' = {}
              /\ pc' = [pc EXCEPT ![1] = "m_cl_rel"]
              /\ UNCHANGED << mutex, selArgs, waker, reg, ready, queue, started, 
-                             sdone, closeCalled, closed, how, chg, envn, ncl, 
-                             closedfds, gone, crashed, myargs, must, res, 
+                             sdone, closeCalled, closed, how, hows, chg, envn, 
+                             ncl, closedfds, gone, crashed, myargs, must, res, 
                              todoR, todoW, cur, ret, cret >>
 
 m_cl_rel == /\ pc[1] = "m_cl_rel"
@@ -517,8 +520,8 @@ m_cl_rel == /\ pc[1] = "m_cl_rel"
             /\ pc' = [pc EXCEPT ![1] = "m_cl_wk"]
             /\ UNCHANGED << waitset, selArgs, closing, waker, reg, ready, 
                             queue, started, sdone, closeCalled, closed, how, 
-                            chg, envn, ncl, closedfds, gone, crashed, myargs, 
-                            must, res, todoR, todoW, cur, ret, cret >>
+                            hows, chg, envn, ncl, closedfds, gone, crashed, 
+                            myargs, must, res, todoR, todoW, cur, ret, cret >>
 
 m_cl_wk == /\ pc[1] = "m_cl_wk"
            /\ \/ /\ waker < MaxW
@@ -532,9 +535,9 @@ m_cl_wk == /\ pc[1] = "m_cl_wk"
                             ELSE /\ pc' = [pc EXCEPT ![1] = "m_cl_rm"]
                  ELSE /\ pc' = [pc EXCEPT ![1] = "m_cl_join"]
            /\ UNCHANGED << mutex, waitset, selArgs, closing, reg, ready, queue, 
-                           started, sdone, closeCalled, closed, how, chg, envn, 
-                           ncl, closedfds, gone, crashed, myargs, must, res, 
-                           todoR, todoW, cur, ret, cret >>
+                           started, sdone, closeCalled, closed, how, hows, chg, 
+                           envn, ncl, closedfds, gone, crashed, myargs, must, 
+                           res, todoR, todoW, cur, ret, cret >>
 
 m_cl_join == /\ pc[1] = "m_cl_join"
              /\ sdone
@@ -543,8 +546,9 @@ m_cl_join == /\ pc[1] = "m_cl_join"
                    ELSE /\ pc' = [pc EXCEPT ![1] = "m_cl_rm"]
              /\ UNCHANGED << mutex, waitset, selArgs, closing, waker, reg, 
                              ready, queue, started, sdone, closeCalled, closed, 
-                             how, chg, envn, ncl, closedfds, gone, crashed, 
-                             myargs, must, res, todoR, todoW, cur, ret, cret >>
+                             how, hows, chg, envn, ncl, closedfds, gone, 
+                             crashed, myargs, must, res, todoR, todoW, cur, 
+                             ret, cret >>
 
 m_cl_rm == /\ pc[1] = "m_cl_rm"
            /\ reg' = [reg EXCEPT !["r"] = reg["r"] \ {0}]
@@ -555,9 +559,9 @@ m_cl_rm == /\ pc[1] = "m_cl_rm"
                  /\ waker' = waker
            /\ pc' = [pc EXCEPT ![1] = "m_cl_end"]
            /\ UNCHANGED << mutex, waitset, selArgs, closing, ready, queue, 
-                           started, sdone, closeCalled, closed, how, chg, envn, 
-                           ncl, closedfds, gone, crashed, myargs, must, res, 
-                           todoR, todoW, cur, ret, cret >>
+                           started, sdone, closeCalled, closed, how, hows, chg, 
+                           envn, ncl, closedfds, gone, crashed, myargs, must, 
+                           res, todoR, todoW, cur, ret, cret >>
 
 m_cl_end == /\ pc[1] = "m_cl_end"
             /\ closed' = TRUE
@@ -568,8 +572,8 @@ m_cl_end == /\ pc[1] = "m_cl_end"
                        /\ pc' = [pc EXCEPT ![1] = "m_run"]
             /\ UNCHANGED << mutex, waitset, selArgs, closing, waker, reg, 
                             ready, queue, started, sdone, closeCalled, how, 
-                            chg, envn, ncl, closedfds, gone, crashed, myargs, 
-                            must, res, todoR, todoW, cur, ret >>
+                            hows, chg, envn, ncl, closedfds, gone, crashed, 
+                            myargs, must, res, todoR, todoW, cur, ret >>
 
 main == m_init \/ m_top \/ m_run \/ m_wk \/ m_ss_acq \/ m_ss_body
            \/ m_ss_rel \/ m_cl_body \/ m_cl_rel \/ m_cl_wk \/ m_cl_join
@@ -580,9 +584,9 @@ s_acq == /\ pc[2] = "s_acq"
          /\ mutex' = 2
          /\ pc' = [pc EXCEPT ![2] = "s_cs"]
          /\ UNCHANGED << waitset, selArgs, closing, waker, reg, ready, queue, 
-                         started, sdone, closeCalled, closed, how, chg, envn, 
-                         ncl, closedfds, gone, crashed, myargs, must, res, 
-                         todoR, todoW, cur, ret, cret >>
+                         started, sdone, closeCalled, closed, how, hows, chg, 
+                         envn, ncl, closedfds, gone, crashed, myargs, must, 
+                         res, todoR, todoW, cur, ret, cret >>
 
 s_cs == /\ pc[2] = "s_cs"
         /\ IF ~selArgs.some /\ ~closing
@@ -602,17 +606,18 @@ s_cs == /\ pc[2] = "s_cs"
                               /\ sdone' = sdone
                    /\ UNCHANGED waitset
         /\ UNCHANGED << closing, waker, reg, ready, queue, started, 
-                        closeCalled, closed, how, chg, envn, ncl, closedfds, 
-                        gone, crashed, must, res, todoR, todoW, cur, ret, cret >>
+                        closeCalled, closed, how, hows, chg, envn, ncl, 
+                        closedfds, gone, crashed, must, res, todoR, todoW, cur, 
+                        ret, cret >>
 
 s_woke == /\ pc[2] = "s_woke"
           /\ 2 \notin waitset /\ mutex = 0
           /\ mutex' = 2
           /\ pc' = [pc EXCEPT ![2] = "s_cs"]
           /\ UNCHANGED << waitset, selArgs, closing, waker, reg, ready, queue, 
-                          started, sdone, closeCalled, closed, how, chg, envn, 
-                          ncl, closedfds, gone, crashed, myargs, must, res, 
-                          todoR, todoW, cur, ret, cret >>
+                          started, sdone, closeCalled, closed, how, hows, chg, 
+                          envn, ncl, closedfds, gone, crashed, myargs, must, 
+                          res, todoR, todoW, cur, ret, cret >>
 
 s_sel_begin == /\ pc[2] = "s_sel_begin"
                /\ must' = [k \in Kinds |-> ReadyNow(k) \cap ArgsOf(myargs, k)]
@@ -620,8 +625,9 @@ s_sel_begin == /\ pc[2] = "s_sel_begin"
                /\ pc' = [pc EXCEPT ![2] = "s_sel_end"]
                /\ UNCHANGED << mutex, waitset, selArgs, closing, waker, reg, 
                                ready, queue, started, sdone, closeCalled, 
-                               closed, how, chg, envn, ncl, closedfds, crashed, 
-                               myargs, res, todoR, todoW, cur, ret, cret >>
+                               closed, how, hows, chg, envn, ncl, closedfds, 
+                               crashed, myargs, res, todoR, todoW, cur, ret, 
+                               cret >>
 
 s_sel_end == /\ pc[2] = "s_sel_end"
              /\ \/ /\ \E rs \in SeqsBetween(must["r"], (ReadyNow("r") \cap myargs.r) \cup gone["r"]):
@@ -640,17 +646,17 @@ s_sel_end == /\ pc[2] = "s_sel_end"
                    /\ res' = res
              /\ UNCHANGED << mutex, waitset, selArgs, closing, waker, reg, 
                              ready, queue, started, sdone, closeCalled, closed, 
-                             how, chg, envn, ncl, closedfds, crashed, todoR, 
-                             todoW, cur, ret, cret >>
+                             how, hows, chg, envn, ncl, closedfds, crashed, 
+                             todoR, todoW, cur, ret, cret >>
 
 s_poll_begin == /\ pc[2] = "s_poll_begin"
                 /\ TRUE
                 /\ pc' = [pc EXCEPT ![2] = "s_poll_end"]
                 /\ UNCHANGED << mutex, waitset, selArgs, closing, waker, reg, 
                                 ready, queue, started, sdone, closeCalled, 
-                                closed, how, chg, envn, ncl, closedfds, gone, 
-                                crashed, myargs, must, res, todoR, todoW, cur, 
-                                ret, cret >>
+                                closed, how, hows, chg, envn, ncl, closedfds, 
+                                gone, crashed, myargs, must, res, todoR, todoW, 
+                                cur, ret, cret >>
 
 s_poll_end == /\ pc[2] = "s_poll_end"
               /\ IF waker > 0
@@ -663,17 +669,17 @@ s_poll_end == /\ pc[2] = "s_poll_end"
                          /\ res' = res
               /\ UNCHANGED << mutex, waitset, selArgs, closing, waker, reg, 
                               ready, queue, started, closeCalled, closed, how, 
-                              chg, envn, ncl, closedfds, gone, myargs, must, 
-                              todoR, todoW, cur, ret, cret >>
+                              hows, chg, envn, ncl, closedfds, gone, myargs, 
+                              must, todoR, todoW, cur, ret, cret >>
 
 s_post == /\ pc[2] = "s_post"
           /\ queue' = Append(queue, res)
           /\ res' = [rs |-> <<>>, ws |-> <<>>]
           /\ pc' = [pc EXCEPT ![2] = "s_acq"]
           /\ UNCHANGED << mutex, waitset, selArgs, closing, waker, reg, ready, 
-                          started, sdone, closeCalled, closed, how, chg, envn, 
-                          ncl, closedfds, gone, crashed, myargs, must, todoR, 
-                          todoW, cur, ret, cret >>
+                          started, sdone, closeCalled, closed, how, hows, chg, 
+                          envn, ncl, closedfds, gone, crashed, myargs, must, 
+                          todoR, todoW, cur, ret, cret >>
 
 sel == s_acq \/ s_cs \/ s_woke \/ s_sel_begin \/ s_sel_end \/ s_poll_begin
           \/ s_poll_end \/ s_post
@@ -687,9 +693,9 @@ e_loop == /\ pc[3] = "e_loop"
                  /\ envn' = envn + 1
           /\ pc' = [pc EXCEPT ![3] = "e_loop"]
           /\ UNCHANGED << mutex, waitset, selArgs, closing, waker, reg, queue, 
-                          started, sdone, closeCalled, closed, how, chg, ncl, 
-                          closedfds, gone, crashed, myargs, must, res, todoR, 
-                          todoW, cur, ret, cret >>
+                          started, sdone, closeCalled, closed, how, hows, chg, 
+                          ncl, closedfds, gone, crashed, myargs, must, res, 
+                          todoR, todoW, cur, ret, cret >>
 
 env == e_loop
 
